@@ -129,9 +129,16 @@ func (vm *VirtualMachine) start(ctx context.Context) error {
 	// Halt execution when the context is cancelled
 	vm.halt = 0
 	if doneChan := ctx.Done(); doneChan != nil {
+		// The watcher belongs to this run only: if the context is done after
+		// the run has finished, it must not halt a later run of this VM.
+		run := vm.startCount
 		go func() {
 			<-doneChan
-			atomic.StoreInt32(&vm.halt, 1)
+			vm.runMutex.Lock()
+			defer vm.runMutex.Unlock()
+			if vm.running && vm.startCount == run {
+				atomic.StoreInt32(&vm.halt, 1)
+			}
 		}()
 	}
 	return nil
